@@ -247,7 +247,7 @@ def enum_long(tier, shard, nshards):
         rises = [t + period // 4 for t in troughs if t + period // 4 < peaks[-1]] if mode != 1 else None
         decays = [p + period // 4 for p in peaks if p + period // 4 < max(troughs)] if mode != 2 else None
         yield {'n': n, 'peaks': peaks, 'troughs': troughs, 'rises': rises, 'decays': decays, 'variant': 0, 'long': True}
-    if tier == 'thorough' and shard == nshards - 1:
+    if shard == nshards - 1:
         # beyond 2**24 samples (single-precision sample counters stop being exact there)
         n, period = 2 ** 24 + 3000, 500
         peaks = list(range(2 ** 24 - 20 * period + 3, n, period))
